@@ -18,7 +18,7 @@ class Check(EngineCheck):
                 "LLBuild.Refine.EngineImpl_sound_C01", "LLBuild.Refine.EngineImpl_sound_C02_once",
                 "LLBuild.Refine.EngineImpl_sound_C05_quiescent",
                 "LLBuild.Refine.build_terminates", "LLBuild.Refine.refinement_final_sized", "LLBuild.Refine.EngineImpl_terminates"]
-    mix = [(0.5, {}), (0.5, {"threads": True})]
+    mix = [(0.45, {}), (0.35, {"threads": True}), (0.2, {"foreign_cancel": True})]
     budget = (300, 3000)
     cross_schedule = True
     assumptions = EngineCheck.assumptions + [
